@@ -8,6 +8,9 @@ CONSTANTS
   NReps = {0}
   IndexBySortedId = FALSE
   CutAtN = FALSE
+  Sharing = FALSE
+  ReplaceByKey = TRUE
+  MaxReAdd = 0
   CanonicalFirst = FALSE
 INVARIANTS TypeOK C35_RankSame
 CHECK_DEADLOCK FALSE
